@@ -248,3 +248,57 @@ func vpCheckMirror(cl *vpClusterT, name, key string) {
 		vpAssert(p.Timestamp() == b.Timestamp(), "backup-timestamp-mirrors-primary")
 	}
 }
+
+// VerifC09_TwoKeys: the expiry of a key is that key's own. Two keys, any script over Put with PX (solver-chosen
+// 500..1000 ms), Incr, GetPut and plain Put on either key through either member, no waiting: after every step each
+// key's stored expiry equals its own reference deadline - set by its own Put PX, kept by its own Incr, cleared by its
+// own GetPut / plain Put, and never touched by an operation on the other key.
+func VerifC09_TwoKeys() {
+	steps := vpBound("steps")
+	cl := vpTwoMembers(1+vpChoose("replicas", 2), 0)
+	ctx := context.Background()
+	keys := [2]string{"k1", "k2"}
+	var ref [2]vpReg
+	for i := 0; i < steps; i++ {
+		k := vpChoose("key", 2)
+		dm := vpDMap(cl.members[vpChoose("entry", 2)], "d")
+		now := vpNowMs()
+		switch vpChoose("op", 4) {
+		case 0:
+			d := vpRange("px", 500, 1000)
+			err := dm.Put(ctx, keys[k], vpIntBytes(1), &PutConfig{HasPX: true, PX: time.Duration(d) * time.Millisecond})
+			vpAssert(err == nil, "put-px-succeeds")
+			ref[k] = vpReg{present: true, deadline: now + int64(d)}
+		case 1:
+			_, err := dm.Incr(ctx, keys[k], 1)
+			vpAssert(err == nil, "incr-succeeds")
+			if !ref[k].present {
+				ref[k] = vpReg{present: true}
+			}
+		case 2:
+			_, err := dm.GetPut(ctx, keys[k], vpIntBytes(5))
+			vpAssert(err == nil, "getput-succeeds")
+			ref[k] = vpReg{present: true}
+		case 3:
+			vpAssert(dm.Put(ctx, keys[k], vpIntBytes(7), nil) == nil, "put-succeeds")
+			ref[k] = vpReg{present: true}
+		}
+		for j := 0; j < 2; j++ {
+			e, err := vpDMap(cl.members[0], "d").Get(ctx, keys[j])
+			if !ref[j].present {
+				vpAssert(errors.Is(err, ErrKeyNotFound), "untouched-key-absent")
+				continue
+			}
+			vpAssert(err == nil, "key-visible-before-its-deadline")
+			if err != nil {
+				continue
+			}
+			if ref[j].deadline == 0 {
+				vpAssert(e.TTL() == 0, "key-without-expiry-has-none")
+			} else {
+				vpAssert(e.TTL() >= ref[j].deadline-vpMarginMs && e.TTL() <= ref[j].deadline+100, "key-keeps-its-own-deadline")
+			}
+		}
+	}
+	vpReach("end")
+}
